@@ -229,6 +229,10 @@ impl<'buf, 'fds> Unmarshal<'buf, 'fds> for Variant<'buf, 'fds> {
     fn unmarshal(
         ctx: &mut crate::wire::unmarshal_context::UnmarshalContext<'fds, 'buf>,
     ) -> crate::wire::unmarshal::UnmarshalResult<Self> {
-        crate::wire::unmarshal::container::unmarshal_variant(ctx)
+        // the variant counts towards the nesting depth like it does in unmarshal_container
+        ctx.enter_container()?;
+        let variant = crate::wire::unmarshal::container::unmarshal_variant(ctx);
+        ctx.leave_container();
+        variant
     }
 }
